@@ -67,9 +67,21 @@ class Deep:
                 deep.logging.exception("Failed to process plugin resource {}", provider.name)
 
         self.config.resource = default_resource
-        self.trigger_handler.start()
-        self.grpc.start()
-        self.poll.start()
+        # a shutdown closes the task handler, a start after that has to be able to submit work again
+        self.task_handler.open()
+        try:
+            self.trigger_handler.start()
+            self.grpc.start()
+            self.poll.start()
+        except BaseException:
+            # a start that fails part way must not leave our trace hooks or the poll timer behind: we are not started,
+            # so shutdown would not remove them
+            for name, step in [("poll", self.poll.shutdown), ("trigger handler", self.trigger_handler.shutdown)]:
+                try:
+                    step()
+                except BaseException:
+                    deep.logging.exception("Failed to undo the start of %s", name)
+            raise
         self.started = True
 
     def shutdown(self):
